@@ -111,8 +111,11 @@ let expected_value bb ssig sexp prec route p =
   else
     let src b = Some (b, { fsig = z ssig; fexp = z sexp }) in
     match route with
-    | "repr" | "parts" | "parts_scaled" | "repr_scaled" | "clone" | "negneg" | "shlr" | "rounding" | "withprec_up"
+    | "repr" | "parts" | "parts_scaled" | "repr_scaled" | "clone" | "negneg" | "shlr" | "rounding"
     | "fromint" | "same_p" -> src bb
+    | "withprec_up" ->
+        (* with_precision(prec + p): from unlimited precision (prec = 0) this is a rounding to p digits *)
+        if Zar.sign prec <> 0 || Zar.leq (ndigits (Zar.of_int bb) (z ssig)) (usz p) then src bb else None
     | "withprec" | "addsub0" | "mul1" | "muldiv0" | "convint" -> if fits bb then src bb else None
     | "from10" | "from2" ->
         let sb = if route = "from10" then 10 else 2 in
